@@ -155,7 +155,7 @@ def run_ops(res, shard, tier):
 
 def run_misc(res, dim, system, tier):
     vs = [v for v in A.vectors(dim, tier) if C03._well(v)]
-    vs = [v for v in vs if not v.has("wildphi")][:6] + [v for v in vs if v.has("wildphi")]  # incl. azimuths stored outside [-pi, pi]
+    vs = A.representatives([v for v in vs if not v.has("wildphi")], 6) + [v for v in vs if v.has("wildphi")]  # incl. azimuths stored outside [-pi, pi]
     rows = [tuple(float(x) for x in S.stored(v, system)) for v in vs if S.stored(v, system) is not None]
     if len(rows) < 2:
         return
